@@ -48,3 +48,18 @@ Qed.
 Theorem one_dim_counts_unusable c l lab cnt xe f p sg :
   particle_list (mkS c l (A1 [lab; cnt]) 1 xe f p sg) = Err IndexError.
 Proof. reflexivity. Qed.
+
+(* construction followed by any admissible history *)
+From SX Require Import Proofs.C04_Add Proofs.C04_Run.
+
+Theorem loaded_file_history c base evs s filt xe fmt pt sg s0 ops :
+  load_file c base evs s filt xe fmt pt sg = Ok s0 -> Forall (adm_op s0) ops ->
+  exists st, run s0 ops = Ok st /\ Inv st /\ held st = run_spec (held s0) ops /\
+             nevents st = zlen (held st) /\ particle_list st = Ok (plist_spec st).
+Proof. intros H. apply history_all. now apply load_file_Inv in H. Qed.
+
+Theorem loaded_pobj_history evs s filt s0 ops :
+  load_pobj evs s filt = Ok s0 -> Forall (adm_op s0) ops ->
+  exists st, run s0 ops = Ok st /\ Inv st /\ held st = run_spec (held s0) ops /\
+             nevents st = zlen (held st) /\ particle_list st = Ok (plist_spec st).
+Proof. intros H. apply history_all. now apply load_pobj_Inv in H. Qed.
